@@ -289,6 +289,12 @@ def check_reported_objects(repo: Repo, run: Run) -> None:
     object was returned (and reported) by an earlier invocation, so a later record would rewrite a trace that a truncated
     dump had already reported differently."""
     from .. import decoders
+    # the record list handed to a decoder (and kept in the reported trace) is the window the END action POPPED: nothing the
+    # parser still holds refers to it (C04 K2 - only fresh lists are windows, K4 - the window is removed when it is reported)
+    from .c09 import window_obligations
+    window_obligations(repo, run, ("K2", "K4"),
+                       "the record list of a reported trace can then still be appended to by later records: a trace reported from "
+                       "a truncated dump differs from the one reported from the whole dump")
     D = decoders.Decoders(repo)
     n = 0
     for e in D.entries():
